@@ -558,7 +558,7 @@ func run(c *lib.Ctx) error {
 	long30 := lib.GenAsset{Name: "g_long30", Reps: []lib.GenRep{lib.VideoRep("V1", 90000, 3000, []uint64{360000, 2700000, 360000})}}
 	layouts := []lib.GenAsset{long30}
 	for _, l := range lib.GenCatalogue() {
-		if l.Class == "ok" && (c.Thorough() || l.Asset.Name == "g_irr7_12800" || l.Asset.Name == "g_avgfirst_tl" || l.Asset.Name == "g_mixed_n" || l.Asset.Name == "g_mixed_n2" || l.Asset.Name == "g_sub_15360" || l.Asset.Name == "g_ntsc_multi") {
+		if l.Class == "ok" && (c.Thorough() || l.Asset.Name == "g_irr7_12800" || l.Asset.Name == "g_avgfirst_tl" || l.Asset.Name == "g_thumbs_first" || l.Asset.Name == "g_mixed_n" || l.Asset.Name == "g_mixed_n2" || l.Asset.Name == "g_sub_15360" || l.Asset.Name == "g_ntsc_multi") {
 			layouts = append(layouts, l.Asset)
 		}
 	}
@@ -591,7 +591,7 @@ func run(c *lib.Ctx) error {
 	starts := []int64{0, 0, 30, 1600000000}
 	tsbds := []int64{-1, -1, 0, 1, 10, 60, 61, 172800}
 	snrs := []int64{-1, -1, 0, 1, 7}
-	extras := []string{"", "", "", "timesubsstpp_en,sv/", "timesubswvtt_en/"}
+	extras := []string{"", "", "", "timesubsstpp_en,sv/", "timesubswvtt_en/", "timesubsstpp_en,pt-BR/", "timesubswvtt_zh-Hans/"}
 	nCfg, nInst := 7, 10
 	if c.Thorough() {
 		nCfg, nInst = 40, 24
@@ -649,7 +649,7 @@ func run(c *lib.Ctx) error {
 			}
 			if k == 3 || k == 4 {
 				// every asset (every video timescale) with generated subtitles under both timeline modes
-				cfg = lib.TLCfg{Snr: -1, Tsbd: -1, Mode: []string{"tlt", "tlnr"}[k-3], Extra: []string{"timesubsstpp_en,sv/", "timesubswvtt_en/"}[(k+len(jobs))%2]}
+				cfg = lib.TLCfg{Snr: -1, Tsbd: -1, Mode: []string{"tlt", "tlnr"}[k-3], Extra: []string{"timesubsstpp_en,sv/", "timesubswvtt_en/", "timesubsstpp_en,pt-BR/", "timesubswvtt_zh-Hans/"}[(k+len(jobs))%4]}
 				pairs.Add("mpd", segMS, cfg)
 			}
 			if cfg.AtoMS > 0 {
